@@ -217,6 +217,7 @@ def run(ctx, host=None):
         # the close must also happen when the `with` block (or the publishing code) raised: at least one close() that is not under a test of the exception
         # argument and not inside the body of a try (a `finally`, or straight-line code)
         always = False
+        early_exit = None
         if mf is not None:
             for c in walk_local(mf.node):
                 if isinstance(c, ast.Call) and isinstance(c.func, ast.Attribute) and c.func.attr == 'close' and attr in norm(c.func.value):
@@ -230,8 +231,28 @@ def run(ctx, host=None):
                         if isinstance(a, ast.ExceptHandler):
                             ok_here = False
                         child, a = a, getattr(a, '_parent', None)
+                    if ok_here:
+                        # an exit of the method that leaves before the top-level statement holding this close (an early `return` / `raise` for the
+                        # failure case) skips it, unless the exiting block closes the handle itself
+                        top = c
+                        while getattr(top, '_parent', None) is not None and getattr(top, '_parent', None) is not mf.node:
+                            top = top._parent
+                        for st in mf.node.body:
+                            if st is top:
+                                break
+                            for x in ast.walk(st):
+                                if isinstance(x, (ast.Return, ast.Raise)) and not isinstance(st, (ast.FunctionDef, ast.ClassDef)):
+                                    blk = getattr(x, '_parent', None)
+                                    sib = [y for fld in ('body', 'orelse', 'finalbody') for y in (getattr(blk, fld, None) or []) if isinstance(getattr(blk, fld, None), list)]
+                                    closes_first = any(isinstance(z, ast.Call) and isinstance(z.func, ast.Attribute) and z.func.attr == 'close' and attr in norm(z.func.value)
+                                                       for y in sib if y.lineno < x.lineno for z in ast.walk(y))
+                                    if not closes_first and early_exit is None:
+                                        early_exit = x
                     always = always or ok_here
-        if closes and not always and closer == '__exit__':
+        if closes and always and early_exit is not None and closer == '__exit__':
+            chk.bad(R1, f'{clsq}.{closer}', f'self.{attr}.close()', f'`{closer}` leaves at line {early_exit.lineno} (`{norm(early_exit)[:40]}`) before the statement that closes `{attr}`: on that path the '
+                    'descriptor stays open (one leaked descriptor per failed write)', where=f'{ci.module.relpath}:{early_exit.lineno}')
+        elif closes and not always and closer == '__exit__':
             chk.bad(R1, f'{clsq}.{closer}', f'self.{attr}.close()', f'`{closer}` closes `{attr}` only on the success path: when the with-block or the publishing code raises, the descriptor stays open '
                     '(one leaked descriptor per failed write)', where=f'{ci.module.relpath}:{mf.lineno}')
         elif closes:
@@ -469,6 +490,24 @@ def run(ctx, host=None):
             else:
                 chk.bad(R5, f.qualname, norm(n)[:100], 'a read inside a streaming loop has no constant bound on its size: peak memory grows with the object size', where=f'{f.module.relpath}:{n.lineno}')
     chk.require(nloops >= 8, f'expected at least 8 chunked reads in streaming loops, found {nloops}')
+    # a `.read` method value that escapes un-called (iter(fh.read, b''), map, a callback): whoever calls it passes no size, so one call
+    # reads the whole stream; only functools.partial(<x>.read, <constant bound>) keeps the bound
+    for f in prog.all_functions():
+        if isinstance(f.node, ast.Lambda) or f.qualname in exempt:
+            continue
+        for n in walk_local(f.node):
+            if not (isinstance(n, ast.Attribute) and n.attr == 'read' and isinstance(n.ctx, ast.Load)):
+                continue
+            par = getattr(n, '_parent', None)
+            if isinstance(par, ast.Call) and par.func is n:
+                continue
+            if isinstance(par, ast.Call) and norm(par.func) in ('partial', 'functools.partial') and len(par.args) >= 2 and par.args[0] is n:
+                v = fold(prog, par.args[1], f)
+                if isinstance(v, int) and 0 < v <= 16 * 1024 * 1024:
+                    chk.ok(R5, f.qualname, norm(par)[:80], detail=f'partial with constant {v}')
+                    continue
+            chk.bad(R5, f.qualname, norm(par if par is not None else n)[:100], f'the method value `{norm(n)}` is handed over un-called: its caller (iter() with a sentinel, a callback) calls read() without a size, '
+                    'so one call reads the whole stream into memory -- peak memory grows with the object size', where=f'{f.module.relpath}:{n.lineno}')
     # streaming inflate: decompressobj.decompress(data, max_length) -- without max_length one 512 KiB compressed chunk of a
     # well-compressible object inflates to hundreds of MiB at once
     ndec = 0
